@@ -4,6 +4,7 @@
 // or any sanitizer report / assertion / hang aborts with the input saved by libFuzzer.
 //   VERIF_TOTEXT=<file>  : print the text form of the script encoded in <file> and exit (replay conversion)
 #include "../engine/convsim.hpp"
+#include "../engine/nontrivial.hpp"
 #include <cstdio>
 #include <cstdlib>
 #include <fstream>
@@ -73,6 +74,7 @@ extern "C" int LLVMFuzzerTestOneInput(const uint8_t *data, size_t size)
 		g_cls[kv.first] += kv.second;
 		if (kv.first.compare(0, 6, "fault:") == 0 || kv.first == "short-reads" || kv.first == "hostile-or-raw-payload(set-oracles-off-afterwards)") nt = true;
 	}
+	if (g_prop != "C04") nt = nontrivial(g_prop, r); // the property's own rule (engine/nontrivial.hpp)
 	if (nt) {
 		g_nontrivial.insert(fnv(data, size));
 		if (g_samples.size() < 4 && g_evals % 50 == 1) g_samples.push_back(to_text(sc).substr(0, 600));
